@@ -140,7 +140,7 @@ func runC12(c *core.Ctx) {
 			}
 		}
 		// Grow
-		for _, g := range []int{0, 1, spare, spare + 1, 2*spare + 3} {
+		for _, g := range []int{0, 1, spare, spare + 1, 2*spare + 3, 1024 * (1 + (n+spare)%6), 1 << ((3*n + spare) % 17)} {
 			s := mkSlice(n, spare, 0)
 			orig := append([]int(nil), s...)
 			var out []int
@@ -239,6 +239,37 @@ func runC12(c *core.Ctx) {
 		}
 		return
 	}
+	// a third of the random cases: other element types (sizes 0..320 bytes, strings,
+	// pointers) and zero-capacity slices; big and round Grow amounts
+	if c.Index%3 == 0 {
+		ok := false
+		switch (c.Index / 3) % 7 {
+		case 0:
+			ok = typedSplice(c, "[9]int64", func(i int) [9]int64 { return [9]int64{int64(i), 1, 2, 3, 4, 5, 6, 7, int64(-i)} })
+		case 1:
+			ok = typedSplice(c, "[40]int64", func(i int) [40]int64 { return [40]int64{0: int64(i), 39: int64(i) * 3} })
+		case 2:
+			ok = typedSplice(c, "string", func(i int) string { return fmt.Sprintf("s%d", i) })
+		case 3:
+			ok = typedSplice(c, "struct{}", func(i int) struct{} { return struct{}{} })
+		case 4:
+			ok = typedSplice(c, "record", func(i int) c12rec { return c12rec{byte(i), fmt.Sprint(i), i%3 == 0} })
+		case 5:
+			ok = typedSplice(c, "uint8", func(i int) uint8 { return uint8(i%250 + 1) })
+		case 6:
+			ptrs := map[int]*int{}
+			ok = typedSplice(c, "*int", func(i int) *int {
+				if ptrs[i] == nil {
+					ptrs[i] = new(int)
+				}
+				return ptrs[i]
+			})
+		}
+		if ok {
+			c.NonTrivial(core.Mix(14, uint64(c.Index), c.Seed))
+		}
+		return
+	}
 	n := r.Range(0, 5000)
 	if r.Chance(1, 2) {
 		n = r.Range(0, 64)
@@ -251,6 +282,215 @@ func runC12(c *core.Ctx) {
 		return
 	}
 	c.NonTrivial(core.Mix(13, uint64(n), uint64(spare), c.Seed))
+}
+
+type c12rec struct {
+	a byte
+	b string
+	c bool
+}
+
+// typedSplice: the splice model for an arbitrary comparable element type.
+func typedSplice[T comparable](c *core.Ctx, tname string, val func(i int) T) bool {
+	r := c.R
+	var zero T
+	mk := func(n, spare, base int) []T {
+		if n+spare == 0 {
+			switch r.Intn(3) {
+			case 0:
+				return nil
+			case 1:
+				return []T{}
+			}
+			return make([]T, 3)[:0:0]
+		}
+		s := make([]T, n+spare)
+		for i := range s {
+			if i < n {
+				s[i] = val(base + i + 1)
+			} else {
+				s[i] = val(900000 + i)
+			}
+		}
+		return s[:n:len(s)]
+	}
+	fail := func(sig, msg string) bool {
+		c.Violate(sig+"["+tname+"]", msg+" [element type "+tname+"]", nil)
+		return false
+	}
+	short := func(s []T) string {
+		if len(s) > 12 {
+			return fmt.Sprintf("%v... (len %d)", s[:12], len(s))
+		}
+		return fmt.Sprint(s)
+	}
+	for round := 0; round < 12; round++ {
+		n := []int{0, 0, 1, 2, 3, r.Range(0, 40), r.Range(0, 40), r.Range(0, 300)}[r.Intn(8)]
+		spare := []int{0, 0, 0, 1, r.Range(0, 8), r.Range(0, 70)}[r.Intn(6)]
+		idx := r.Intn(n + 1)
+		// Insert
+		{
+			s := mk(n, spare, 0)
+			orig := append([]T(nil), s...)
+			v := val(77777)
+			want := append(append(append([]T{}, orig[:idx]...), v), orig[idx:]...)
+			if p, pv := core.Catch(func() { slices.Insert(&s, idx, v) }); p {
+				return fail("Insert:panic", fmt.Sprintf("Insert(len=%d cap=%d nil=%v, index=%d) panicked: %v", n, n+spare, orig == nil && n == 0, idx, pv))
+			}
+			if !eqSlice(s, want) {
+				return fail("Insert:contents", fmt.Sprintf("Insert(len=%d spare=%d index=%d): got %s want %s", n, spare, idx, short(s), short(want)))
+			}
+			c.Count("typed_insert", 1)
+		}
+		// InsertSlice
+		{
+			m := []int{0, 1, r.Range(0, 20), r.Range(0, 2*n+5)}[r.Intn(4)]
+			s := mk(n, spare, 0)
+			orig := append([]T(nil), s...)
+			ins := mk(m, r.Intn(3), 50000)
+			insSnap := append([]T(nil), ins...)
+			want := append(append(append([]T{}, orig[:idx]...), ins...), orig[idx:]...)
+			if p, pv := core.Catch(func() { slices.InsertSlice(&s, idx, ins) }); p {
+				return fail("InsertSlice:panic", fmt.Sprintf("InsertSlice(len=%d cap=%d, index=%d, %d values) panicked: %v", n, n+spare, idx, m, pv))
+			}
+			if !eqSlice(s, want) {
+				return fail("InsertSlice:contents", fmt.Sprintf("InsertSlice(len=%d spare=%d index=%d n=%d): got %s want %s", n, spare, idx, m, short(s), short(want)))
+			}
+			if !eqSlice(ins, insSnap) {
+				return fail("InsertSlice:modified-argument", "the inserted slice was modified")
+			}
+			c.Count("typed_insertslice", 1)
+		}
+		// Remove / RemoveSlice
+		if n > 0 {
+			i := r.Intn(n)
+			s := mk(n, spare, 0)
+			orig := append([]T(nil), s...)
+			want := append(append([]T{}, orig[:i]...), orig[i+1:]...)
+			if p, pv := core.Catch(func() { slices.Remove(&s, i) }); p {
+				return fail("Remove:panic", fmt.Sprintf("Remove(len=%d, index=%d) panicked: %v", n, i, pv))
+			}
+			if !eqSlice(s, want) {
+				return fail("Remove:contents", fmt.Sprintf("Remove(len=%d spare=%d index=%d): got %s want %s", n, spare, i, short(s), short(want)))
+			}
+			c.Count("typed_remove", 1)
+		}
+		{
+			ln := r.Intn(n - idx + 1)
+			s := mk(n, spare, 0)
+			orig := append([]T(nil), s...)
+			want := append(append([]T{}, orig[:idx]...), orig[idx+ln:]...)
+			if p, pv := core.Catch(func() { slices.RemoveSlice(&s, idx, ln) }); p {
+				return fail("RemoveSlice:panic", fmt.Sprintf("RemoveSlice(len=%d, index=%d, length=%d) panicked: %v", n, idx, ln, pv))
+			}
+			if !eqSlice(s, want) {
+				return fail("RemoveSlice:contents", fmt.Sprintf("RemoveSlice(len=%d spare=%d index=%d length=%d): got %s want %s", n, spare, idx, ln, short(s), short(want)))
+			}
+			c.Count("typed_removeslice", 1)
+		}
+		// Grow: small, exactly the spare capacity, round numbers, big
+		{
+			g := []int{0, 1, spare, spare + 1, 1024 * r.Range(1, 8), 1 << r.Range(0, 16), r.Range(0, 5000), 1023, 1025, 65536 + r.Range(-1, 1)}[r.Intn(10)]
+			s := mk(n, spare, 0)
+			orig := append([]T(nil), s...)
+			var out []T
+			if p, pv := core.Catch(func() { out = slices.Grow(s, g) }); p {
+				return fail("Grow:panic", fmt.Sprintf("Grow(len=%d spare=%d, %d) panicked: %v", n, spare, g, pv))
+			}
+			if len(out) != n+g || !eqSlice(out[:n], orig) {
+				return fail("Grow:prefix-or-length", fmt.Sprintf("Grow(len=%d spare=%d, %d): result has length %d, want %d", n, spare, g, len(out), n+g))
+			}
+			for i := n; i < len(out); i++ {
+				if out[i] != zero {
+					return fail("Grow:non-zero", fmt.Sprintf("Grow(len=%d spare=%d, %d): new element %d is not the zero value", n, spare, g, i))
+				}
+			}
+			c.Count("typed_grow", 1)
+			c.Distinct("grow_amounts", uint64(g))
+		}
+		// Concat (nil/empty arguments included) / Clone / Fill / Reverse / Repeat
+		{
+			k := 2
+			args := make([][]T, k)
+			var want []T
+			for i := range args {
+				args[i] = mk(r.Intn(n+2), r.Intn(3), 1000*i)
+				want = append(want, args[i]...)
+			}
+			snaps := make([][]T, k)
+			for i := range args {
+				snaps[i] = append([]T(nil), args[i]...)
+			}
+			res := slices.Concat(args[0], args[1])
+			if !eqSlice(res, want) {
+				return fail("Concat:contents", fmt.Sprintf("Concat(%s, %s) gives %s", short(snaps[0]), short(snaps[1]), short(res)))
+			}
+			for i := range res {
+				res[i] = val(31337)
+			}
+			res = append(res, val(1), val(2))
+			for i := range args {
+				if !eqSlice(args[i], snaps[i]) {
+					return fail("Concat:shares-memory", "mutating the result of Concat changed an input")
+				}
+				for j, v := range args[i][:cap(args[i])][len(args[i]):] {
+					if v != val(900000+len(args[i])+j) {
+						return fail("Concat:shares-memory", "appending to the result of Concat wrote into an input's spare capacity")
+					}
+				}
+			}
+			a := mk(n, spare, 0)
+			as := append([]T(nil), a...)
+			cl := slices.Clone(a)
+			if !eqSlice(cl, as) {
+				return fail("Clone:contents", fmt.Sprintf("Clone(%s)=%s", short(as), short(cl)))
+			}
+			for i := range cl {
+				cl[i] = val(4242)
+			}
+			cl = append(cl, val(5), val(6))
+			if !eqSlice(a, as) {
+				return fail("Clone:shares-memory", "mutating the clone changed the original")
+			}
+			for j, v := range a[:cap(a)][len(a):] {
+				if v != val(900000+len(a)+j) {
+					return fail("Clone:shares-capacity", "appending to the clone wrote into the original's spare capacity")
+				}
+			}
+			fv := val(555)
+			slices.Fill(a, fv)
+			for i, v := range a {
+				if v != fv {
+					return fail("Fill:element", fmt.Sprintf("Fill on length %d left element %d unset", n, i))
+				}
+			}
+			for j, v := range a[:cap(a)][len(a):] {
+				if v != val(900000+len(a)+j) {
+					return fail("Fill:beyond-length", fmt.Sprintf("Fill on length %d wrote beyond the slice", n))
+				}
+			}
+			b := mk(n, spare, 0)
+			bs := append([]T(nil), b...)
+			slices.Reverse(b)
+			for i := range b {
+				if b[i] != bs[n-1-i] {
+					return fail("Reverse:element", fmt.Sprintf("Reverse of length %d: element %d is wrong", n, i))
+				}
+			}
+			rp := slices.Repeat(fv, n)
+			if len(rp) != n {
+				return fail("Repeat:length", fmt.Sprintf("Repeat(v,%d) has length %d", n, len(rp)))
+			}
+			for i, v := range rp {
+				if v != fv {
+					return fail("Repeat:element", fmt.Sprintf("Repeat(v,%d): element %d is not v", n, i))
+				}
+			}
+			c.Count("typed_concat_clone_fill_reverse_repeat", 1)
+		}
+	}
+	c.Count("typed_cases_"+tname, 1)
+	return true
 }
 
 func fillRepeat(c *core.Ctx, ln int) bool {
